@@ -99,7 +99,25 @@ def prepare(source: str, target: Target, cfg):
     return tree, flat, False, list(flat.body), [], [], spliced
 
 
+class _SigOrdered(list):
+    """the plain inputs of a whole method, kept in SIGNATURE order whatever the order of first read (a harmless reordering of
+    statements does not permute the parameters of the Lean definition)"""
+
+    def __init__(self, order: list[str]):
+        super().__init__()
+        self.order = list(order)
+
+    def append(self, v):
+        super().append(v)
+        self.sort(key=lambda x: self.order.index(x) if x in self.order else len(self.order))
+
+
 class DecideTranslator(pp.ProtoTranslator):
+    def __init__(self, tree, cfg, target, fn, static, spliced):
+        super().__init__(tree, cfg, target, fn, static, spliced)
+        if target.kind != "range":
+            self.plain_inputs = _SigOrdered([a.arg for a in fn.args.args])
+
     # ------------------------------------------------------------------ expressions
     def _str_in(self, e: ast.expr):
         if self.pcfg.str_in and isinstance(e, ast.Compare) and len(e.ops) == 1 and isinstance(e.ops[0], ast.In) \
